@@ -156,6 +156,18 @@ def install():
         return orig_fit(self, *a, **kw)
     M.Model.interpolate_mini_models_svd = fit
 
+    # 5b. solve_main: one call per run (hard restarts call it again)
+    orig_sm = S.solve_main
+
+    def solve_main(*a, **kw):
+        ex = CUR
+        if ex is not None:
+            ex.solve_main_calls += 1
+            ex.run_rhoend.append(a[8] if len(a) > 8 else kw.get("rhoend"))
+        return orig_sm(*a, **kw)
+    solve_main.__wrapped__ = orig_sm
+    S.solve_main = solve_main
+
     # 6. dykstra, as bound in every importing module
     orig_dyk = U.dykstra
 
@@ -283,6 +295,8 @@ class Execution(object):
         self.run_starts = []
         self.dykstra_log = []
         self.soft_restarts = 0
+        self.solve_main_calls = 0
+        self.run_rhoend = []
         self.soft_restart_calls = 0
         self.in_soft_restart = 0
         self.label = None
